@@ -334,8 +334,21 @@ def rule_presentation_options(run, prog):
             role = allowed.get(opt)
             calls = [a for a in ancestors(n) if isinstance(a, ast.Call)]
             into = [text(c.func) for c in calls]
-            if role is None:
-                run.ob("R-16.3", key, False, f"unknown option args.{opt} is read", n)
+            if role is None or role == "unused":
+                # a new / so far unused option: fine as long as it stays out of the analysis pipeline
+                st = n
+                while not isinstance(st, ast.stmt):
+                    st = parent(st)
+                leaks = any(f in ("Lexer", "Context", "registry.run", "File", "Registry") for f in into)
+                # stored into a local that later reaches the pipeline?
+                if isinstance(st, ast.Assign) and len(st.targets) == 1 and isinstance(st.targets[0], ast.Name):
+                    nm = st.targets[0].id
+                    for x in walk_fn(main.node):
+                        if isinstance(x, ast.Name) and x.id == nm and isinstance(x.ctx, ast.Load) and any(
+                                isinstance(c, ast.Call) and text(c.func) in ("Lexer", "Context", "registry.run", "File", "Registry")
+                                for c in ancestors(x)):
+                            leaks = True
+                run.ob("R-16.3", key, not leaks, f"option args.{opt} reaches the analysis pipeline (Lexer / Context / registry / File)", n)
             elif role == "format":
                 ok = not any(f in ("Lexer", "Context", "registry.run", "File") for f in into)
                 run.ob("R-16.3", key, ok, "args.format reaches the analysis pipeline", n)
@@ -355,7 +368,7 @@ def rule_presentation_options(run, prog):
                 ok = not any(f in ("Lexer", "Context", "registry.run") for f in into)
                 run.ob("R-16.3", key, ok, f"args.{opt} reaches the analysis pipeline", n)
             else:
-                run.ob("R-16.3", key, False, f"args.{opt} was unused and is now read", n)
+                run.ob("R-16.3", key, True, "not pipeline-relevant", n)
     # the `debug` local goes to Context only
     duses = [n for n in walk_fn(main.node) if isinstance(n, ast.Name) and n.id == "debug" and isinstance(n.ctx, ast.Load)]
     ok = len(duses) >= 1 and all(isinstance(parent(u), ast.Call) and text(parent(u).func) == "Context" for u in duses)
